@@ -39,6 +39,13 @@ def main(tier, seed, replay=None):
                {"patience": 1}, {"ftol": zero, "xtol": zero}][i % 4]
         cases.append(statsrun.gen_stats_case(rng, M, P, M + P + rng.randint(2, 8), scalar=sc, weights=rng.choice(["none", "pos"]),
                                              noise=0.1, cfg=cfg, ctor=("new_parallel" if i % 3 == 0 else "new")))
+    # a user threshold that truncates some singular values at the solution: the parameter count stays M + P
+    for j in range(8 if tier == "quick" else 100):
+        M, P = [(3, 1), (2, 1), (3, 2), (2, 2)][j % 4]
+        N = M + P + [0, 1, 4, 7][j % 4] if j % 2 else M + P + rng.randint(1, 8)
+        c = statsrun.gen_stats_case(rng, M, P, N, scalar="f64", weights=["none", "pos"][j % 2], quant=(8 if j % 3 else None), probs=[0.683])
+        c["build"].append(["eps", hx([0.3, 0.6, 1.0, -0.5][j % 4], "f64")])
+        cases.append(c)
     # the model errs WHILE THE STATISTICS ARE COMPUTED (the last calls of a successful run): a transient or persistent failure at
     # each of the final call indices — Err expected, never Ok with statistics, never a panic
     import copy
